@@ -41,9 +41,31 @@ type Node struct {
 	Sheet   *Sheet      `json:"sheet,omitempty"`
 }
 
+// DocFile is a file the document refers to by name (style sheet or svg image),
+// served by the worker's fetcher
+type DocFile struct {
+	Name  string `json:"name"`
+	Sheet *Sheet `json:"sheet,omitempty"` // a style sheet
+	Node  *Node  `json:"node,omitempty"`  // an svg document
+	Text  string `json:"text,omitempty"`  // anything else, verbatim
+}
+
+func (f DocFile) Content() string {
+	switch {
+	case f.Sheet != nil:
+		return f.Sheet.String()
+	case f.Node != nil:
+		var sb strings.Builder
+		f.Node.write(&sb)
+		return sb.String()
+	}
+	return f.Text
+}
+
 type Doc struct {
-	Top    []*Node `json:"top"`
-	User   []Sheet `json:"user,omitempty"`
+	Top    []*Node   `json:"top"`
+	User   []Sheet   `json:"user,omitempty"`
+	Files  []DocFile `json:"files,omitempty"`
 	Hints  bool    `json:"hints"`
 	Engine string  `json:"engine"`
 	TestUA bool    `json:"testua,omitempty"`
@@ -420,6 +442,17 @@ func (d *Doc) Features(fine bool) []string {
 		f.add("user-sheet")
 		ruleFeatures(f, s.Rules, "user", fine)
 	}
+	for _, fl := range d.Files {
+		switch {
+		case fl.Sheet != nil:
+			f.add("file:css")
+			ruleFeatures(f, fl.Sheet.Rules, "file", fine)
+		case fl.Node != nil:
+			f.add("file:svg")
+			nodeFeatures(f, fl.Node, 1, fine, &maxDepth)
+		}
+	}
+	refFeatures(f, d)
 	switch {
 	case maxDepth > 40:
 		f.add("depth:>40")
@@ -464,6 +497,15 @@ func (d *Doc) Size() int {
 	for _, s := range d.User {
 		n++
 		rs(s.Rules)
+	}
+	for _, fl := range d.Files {
+		n++
+		if fl.Sheet != nil {
+			rs(fl.Sheet.Rules)
+		}
+		if fl.Node != nil {
+			nd(fl.Node)
+		}
 	}
 	return n
 }
